@@ -270,6 +270,11 @@ func (state *RuntimeState) webauthnAuthFinish(w http.ResponseWriter, r *http.Req
 		http.Error(w, "challenge missing", http.StatusBadRequest)
 		return
 	}
+	if localAuth.ExpiresAt.Before(time.Now()) {
+		// expired challenges are only removed by the periodic cleanup
+		http.Error(w, "challenge expired", http.StatusBadRequest)
+		return
+	}
 
 	parsedResponse, err := protocol.ParseCredentialRequestResponse(r)
 	if err != nil {
